@@ -509,7 +509,10 @@ class Polyline:
             if signs_of_verts[-1] == 1:
                 # e.g. signs_of_verts = np.array([1, -1, -1, 1, 1, 1, 1])
                 (vertices_not_in_front,) = np.where(signs_of_verts != 1)
-                roll = -vertices_not_in_front[-1]
+                if len(vertices_not_in_front) > 0:
+                    roll = -vertices_not_in_front[-1]
+                else:
+                    roll = 0
             else:
                 # e.g. signs_of_verts = np.array([-1, 1, 1, 1, 1, 1, -1, -1])
                 (vertices_in_front,) = np.where(signs_of_verts == 1)
